@@ -136,8 +136,9 @@ Proof. vm_compute. repeat split; reflexivity. Qed.
 
 (* (e) UNBOUNDED: operator expressions of any length, with brackets nested to any depth.
    For every token list over value tokens (9), prefix operators (9 tokens), suffix
-   operators (4), binary operators (38), round brackets and whitespace that has the shape
-   of an expression ([operator_expression]: operand := prefix* (value | "(" expr ")")
+   operators (4), binary operators (38), round brackets `( )`, nested-expression brackets
+   `{ }` and whitespace that has the shape
+   of an expression ([operator_expression]: operand := prefix* (value | "(" expr ")" | "{" expr "}")
    suffix*; operands joined by binary operators or, across whitespace, by the implicit
    space list; whitespace allowed between any two tokens, also just inside brackets; no
    leading/trailing whitespace) parse accepts and returns exactly the tree the pinned
@@ -202,13 +203,13 @@ Example C02_ex_bracketed_tree :
   pratt C02_sample_bracketed =
   Some (RBin D_List None
           (RBin D_MultiplicationSign (Some 7)
-             (RGroup 0 (RBin D_Addition (Some 3) (RAtom D_Identifier 1) (RAtom D_Identifier 5)))
+             (RGroup BRound 0 (RBin D_Addition (Some 3) (RAtom D_Identifier 1) (RAtom D_Identifier 5)))
              (RPre D_Opposite 8
                 (RSuf D_EmptyApply 18
-                   (RGroup 9
+                   (RGroup BRound 9
                       (RBin D_Pair (Some 11) (RAtom D_Identifier 10)
-                         (RGroup 12 (RBin D_List None (RAtom D_Identifier 13) (RAtom D_Identifier 15))))))))
-          (RGroup 20 (RAtom D_Number 21))).
+                         (RGroup BRound 12 (RBin D_List None (RAtom D_Identifier 13) (RAtom D_Identifier 15))))))))
+          (RGroup BRound 20 (RAtom D_Number 21))).
 Proof. vm_compute. reflexivity. Qed.
 
 Example C02_ex_bracketed_rejects :
@@ -219,10 +220,31 @@ Example C02_ex_bracketed_rejects :
   operator_expression [TT_StartGroup; TT_Number; TT_EndGroup] = true.
 Proof. vm_compute. repeat split; reflexivity. Qed.
 
+(* curly brackets: `{ a + 1 } ~ 5  { (b) c }` -- nested expressions are in the domain like
+   groups; the tree says which kind of bracket it was; mismatched kinds are not expressions *)
+Definition C02_sample_curly : list token_type :=
+  [TT_StartExpression; TT_Identifier; TT_Whitespace; TT_PlusSign; TT_Whitespace; TT_Number; TT_EndExpression;
+   TT_Whitespace; TT_ApplyTo; TT_Whitespace; TT_Number; TT_Whitespace;
+   TT_StartExpression; TT_StartGroup; TT_Identifier; TT_EndGroup; TT_Whitespace; TT_Identifier; TT_EndExpression].
+
+Example C02_ex_curly :
+  operator_expression C02_sample_curly = true /\
+  pratt C02_sample_curly =
+  Some (RBin D_ApplyTo (Some 8)
+          (RGroup BCurly 0 (RBin D_Addition (Some 3) (RAtom D_Identifier 1) (RAtom D_Number 5)))
+          (RBin D_List None (RAtom D_Number 10)
+             (RGroup BCurly 12 (RBin D_List None (RGroup BRound 13 (RAtom D_Identifier 14)) (RAtom D_Identifier 17))))) /\
+  operator_expression [TT_StartGroup; TT_Number; TT_EndExpression] = false /\
+  pratt [TT_StartGroup; TT_Number; TT_EndExpression] = None /\
+  pratt [TT_StartExpression; TT_StartGroup; TT_Number; TT_EndExpression; TT_EndGroup] = None /\
+  operator_expression [TT_StartExpression; TT_Number; TT_EndExpression] = true.
+Proof. vm_compute. repeat split; reflexivity. Qed.
+
 (* (f) THE FULL STATEMENT, for every token list whatsoever: whenever the reference
    precedence-climbing parser over the pinned table is defined on [toks] (it is defined
    exactly on the operator expressions of (e), possibly surrounded by whitespace; any token
-   outside the fragment -- braces, side-effect brackets, separators, annotations, unknown --
+   outside the fragment -- side-effect brackets, separators, annotations, unknown; also
+   mismatched or empty brackets --
    makes it undefined), parse accepts [toks] and returns exactly the reference tree, token
    positions included.  No bound on length, nesting depth or number of operators.
    Proof: Proofs/C02/Full.v -- a successful climb consumes a well-formed item list
@@ -241,10 +263,10 @@ Example C02_ex_full_nonvacuous :
   pratt [TT_Whitespace; TT_Number; TT_PlusSign; TT_Number; TT_Whitespace]
     = Some (RBin D_Addition (Some 2) (RAtom D_Number 1) (RAtom D_Number 3)) /\
   pratt [TT_Number; TT_PlusSign] = None /\
-  pratt [TT_StartExpression; TT_Number; TT_EndExpression] = None.
+  pratt [TT_StartSideEffect; TT_Number; TT_EndSideEffect] = None.
 Proof. vm_compute. repeat split; reflexivity. Qed.
 
 (* (g) what C02_full does not say: nothing about token lists on which the reference is
-   undefined -- nested expressions { }, side effects [ ], separators, annotations (for
+   undefined -- side effects [ ], separators (also inside { }), annotations, empty { } (for
    those the bounded theorems (b) and the differential runs of the check remain the
    evidence), and nothing about what parse does with non-expressions (that is C03/C04). *)
